@@ -182,6 +182,70 @@ func c13Node(c *core.C) {
 			return
 		}
 	}
+	c13Extra(c, base)
+}
+
+// c13Extra: mutants the generic site enumeration does not produce: enum numbers the schema does not declare,
+// and dates less than a second apart that fall into different seconds.
+func c13Extra(c *core.C, base *sbom.Node) bool {
+	r := c.R
+	unknown := []int32{-1, 1000, 1001, -2147483648, 2147483647, 29, 61, 2}
+	type mut struct {
+		name string
+		f    func(n *sbom.Node, v int32) bool
+	}
+	muts := []mut{
+		{"type", func(n *sbom.Node, v int32) bool { n.Type = sbom.Node_NodeType(v); return true }},
+		{"primary_purpose", func(n *sbom.Node, v int32) bool {
+			if len(n.PrimaryPurpose) == 0 {
+				return false
+			}
+			n.PrimaryPurpose[0] = sbom.Purpose(v)
+			return true
+		}},
+		{"external_references.type", func(n *sbom.Node, v int32) bool {
+			if len(n.ExternalReferences) == 0 {
+				return false
+			}
+			n.ExternalReferences[0].Type = sbom.ExternalReference_ExternalReferenceType(v)
+			return true
+		}},
+	}
+	for _, m := range muts {
+		v1 := unknown[r.Intn(len(unknown))]
+		v2 := unknown[r.Intn(len(unknown))]
+		if v1 == v2 {
+			continue
+		}
+		a, b := gen.Clone(base), gen.Clone(base)
+		if !m.f(a, v1) || !m.f(b, v2) {
+			continue
+		}
+		c.Evals(2)
+		c.Cover("node-unknown-enum-pairs:" + m.name)
+		if a.Equal(b) || b.Equal(a) {
+			c.Violatef("node-mutant-equal:"+m.name+":unknown-enum-numbers", map[string]any{"v1": v1, "v2": v2}, "nodes differing only in %s (undeclared enum numbers %d vs %d) compare equal", m.name, v1, v2)
+			return false
+		}
+	}
+	for i, get := range []func(n *sbom.Node) **timestampT{
+		func(n *sbom.Node) **timestampT { return &n.ReleaseDate }, func(n *sbom.Node) **timestampT { return &n.BuildDate }, func(n *sbom.Node) **timestampT { return &n.ValidUntilDate },
+	} {
+		a, b := gen.Clone(base), gen.Clone(base)
+		if *get(a) == nil {
+			continue
+		}
+		(*get(a)).Nanos = int32(900000000 + r.Intn(99999999))
+		(*get(b)).Seconds = (*get(a)).Seconds + 1
+		(*get(b)).Nanos = int32(r.Intn(100000000))
+		c.Evals(2)
+		c.Cover("dates-straddling-a-second-boundary")
+		if a.Equal(b) || b.Equal(a) {
+			c.Violatef("node-mutant-equal:date-across-second-boundary", i, "nodes whose date %d differs by less than a second but falls into different seconds compare equal", i)
+			return false
+		}
+	}
+	return true
 }
 
 func c13Edge(c *core.C) {
@@ -205,6 +269,22 @@ func c13Edge(c *core.C) {
 	}
 	if len(base.To) >= 2 {
 		c.DistinctStr("edge" + fmt.Sprint(base))
+	}
+	for _, pr := range [][2]int32{{1000, 1001}, {-1, 45}, {-2147483648, 2147483647}, {0, 46}, {45, 46}} {
+		a, b := gen.Clone(base), gen.Clone(base)
+		a.Type, b.Type = sbom.Edge_Type(pr[0]), sbom.Edge_Type(pr[1])
+		c.Evals(2)
+		c.Cover("edge-unknown-enum-pairs")
+		if a.Equal(b) || b.Equal(a) {
+			c.Violatef("edge-mutant-equal:type:unknown-enum-numbers", pr, "edges differing only in their type (undeclared enum numbers %d vs %d) compare equal", pr[0], pr[1])
+			return
+		}
+		la := &sbom.NodeList{Nodes: []*sbom.Node{{Id: base.From}}, Edges: []*sbom.Edge{a}}
+		lb := &sbom.NodeList{Nodes: []*sbom.Node{{Id: base.From}}, Edges: []*sbom.Edge{b}}
+		if la.Equal(lb) {
+			c.Violatef("list-mutant-equal:edge-type:unknown-enum-numbers", pr, "node lists whose only edge differs in its type (%d vs %d) compare equal", pr[0], pr[1])
+			return
+		}
 	}
 	for _, mu := range c13EdgeMuts {
 		m := gen.Clone(base)
